@@ -69,6 +69,12 @@ func (d *Dir) Write(files map[string][]byte) error {
 		verifPoint("file", file)
 	}
 
+	// A previous process may have died after creating the temporary link
+	// and before renaming it; remove the leftover so this write can proceed.
+	if err := os.Remove(d.target + ".new"); err != nil && !os.IsNotExist(err) {
+		return err
+	}
+
 	if err := os.Symlink(newDir, d.target+".new"); err != nil {
 		return err
 	}
